@@ -480,7 +480,12 @@ def evaluate(c, binary, cases, tag):
     for line in out.splitlines():
         i, r = line.split(" ", 1)
         impl[int(i)] = r
-    res = {"impl": impl, "harness_err": err[-500:] if (rc != 0 or len(impl) != len(cases)) else "", "unstable": [],
+    alias = []
+    for i in list(impl):
+        if "~" in impl[i]:   # "<result>~<id>": the bytes returned for case <id> changed when case i was computed
+            alias.append((int(impl[i].split("~")[1].split("/")[0]), i))
+            impl[i] = re.sub(r"~\d+", "", impl[i])
+    res = {"impl": impl, "harness_err": err[-500:] if (rc != 0 or len(impl) != len(cases)) else "", "unstable": [], "alias": alias,
            "model": {}, "bad": {}, "model_bad": {}, "equiv_pairs": 0, "coq_log": ""}
     obs = {}
     for cs in cases:
@@ -603,7 +608,7 @@ def main(argv):
     if cur:
         shards.append(cur)
 
-    corr_bad, unstable, bad, model_bad = [], [], [], []
+    corr_bad, unstable, bad, model_bad, alias = [], [], [], [], []
     equiv_b = equiv_s = 0
     n_eval = 0
     for si, sh in enumerate(shards):
@@ -614,6 +619,7 @@ def main(argv):
             c.fail_obligation("cases-eval", r["coq_log"])
             continue
         unstable += r["unstable"]
+        alias += r.get("alias", [])
         equiv_b += r["equiv_pairs"][0]
         equiv_s += r["equiv_pairs"][1]
         for cs in sh:
@@ -641,6 +647,13 @@ def main(argv):
     for i in unstable[:3]:
         c.report("block-nondeterministic", "real Block() returned different hashes for the same header (map iteration order)",
                  {"cases": [strip(byid[i])], "observed": [byid[i].get("_raw")]})
+    for a, b in alias[:1]:
+        ca, cb = byid[a], byid[b]
+        c.report("returned-bytes-alias:%s" % ca["op"], "the bytes the real code returned for one target (%s, %s) CHANGED when a later call (%s, %s) was made: "
+                 "the result shares memory with a reused buffer, so what a caller holds as the sign bytes / hash of one target becomes "
+                 "the content of another (domain separation and injectivity are lost for a caller that keeps the result)"
+                 % (ca["op"], ca["variant"], cb["op"], cb["variant"]),
+                 {"cases": [strip(ca), strip(cb)], "how": "both cases, in this order, through bin/h_c15; the harness keeps the returned slices and re-reads them"})
     for name, a, b in bad:
         ca, cb = byid[a], byid[b]
         if name == "bad_blocks":
@@ -669,7 +682,7 @@ def main(argv):
                              "observed_real_outputs": [ca.get("_obs"), cb.get("_obs")],
                              "how": "./check C15 --replay <this file>  (both cases are run through the real code; "
                                     "the pair monitor c15_*_pair_mon is evaluated on the two real outputs)"})
-    found = bool(bad or unstable)
+    found = bool(bad or unstable or alias)
     if corr_bad and not found:
         i, want, o = corr_bad[0]
         c.fail_obligation("correspondence model vs simplehashscheme.go/simplesignaturescheme.go",
